@@ -171,12 +171,31 @@ Definition first_routed (l : itrace) : option (nat * nat) :=
   | [] => None
   end.
 
-(** position of the event at which the gate let the request pass (Wait returned proceed) *)
-Fixpoint pass_pos (l : itrace) : option nat :=
+(** position at which the gate opened for the request: its read of a running
+    gate, or - if it parked - the resume / stop that closed its generation (the
+    first command after its read that made the service leave the paused state);
+    only for requests that Wait let proceed *)
+Fixpoint read_pos (l : itrace) : option (nat * gstate) :=
   match l with
   | [] => None
-  | (i, e) :: r => match e_k e with KGateResult _ _ AProceed => Some i | _ => pass_pos r end
+  | (i, e) :: r => match e_k e with KGateRead _ st _ => Some (i, st) | _ => read_pos r end
   end.
+
+Definition proceeded (l : itrace) : bool :=
+  existsb (fun ie => match e_k (snd ie) with KGateResult _ _ AProceed => true | _ => false end) l.
+
+Definition pass_pos (sets : list nev) (l : itrace) : option nat :=
+  if proceeded l then
+    match read_pos l with
+    | Some (i, GPaused) =>
+      match filter (fun x => Nat.ltb i (ne_pos x)) (leaves sets GRunning) with
+      | x :: _ => Some (ne_pos x)
+      | [] => None
+      end
+    | Some (i, _) => Some i
+    | None => None
+    end
+  else None.
 
 Fixpoint first_claimish (l : itrace) : option nat :=
   match l with
@@ -192,15 +211,19 @@ Fixpoint respond_pos (l : itrace) : option nat :=
 
 (** ** Known findings: narrow patterns on the trace *)
 
-(** D3: the gate let the request pass, THEN a pause / stop of its service took
+(** D3: the gate opened for the request, THEN a pause / stop of its service took
     effect, and the request reached the load balancer only after that. *)
 Definition known_d3 (tr : itrace) (r : nat) : bool :=
   let l := req_evs tr r in
-  match first_routed l, pass_pos l, first_claimish l with
-  | Some (_, s), Some g, Some k =>
-    existsb (fun x => Nat.ltb g (ne_pos x) && Nat.ltb (ne_pos x) k && negb (gstate_eqb (ne_st x) GRunning))
-            (name_sets tr (svc_name tr s))
-  | _, _, _ => false
+  match first_routed l with
+  | Some (_, s) =>
+    let sets := name_sets tr (svc_name tr s) in
+    match pass_pos sets l, first_claimish l with
+    | Some g, Some k =>
+      existsb (fun x => Nat.ltb g (ne_pos x) && Nat.ltb (ne_pos x) k && negb (gstate_eqb (ne_st x) GRunning)) sets
+    | _, _ => false
+    end
+  | None => false
   end.
 
 (** D2: between the routing of the request and its claim of a target (or its
@@ -223,12 +246,16 @@ Definition known_d2 (tr : itrace) (r : nat) : bool :=
     the pause was still draining). *)
 Definition known_ov (tr : itrace) (r : nat) : bool :=
   let l := req_evs tr r in
-  match first_routed l, pass_pos l with
-  | Some (_, s), Some g =>
-    existsb (fun x => negb (gstate_eqb (ne_st x) GRunning) && Nat.ltb (ne_pos x) g &&
-                      match cmd_return tr (ne_cmd x) with Some j => Nat.ltb g j | None => true end)
-            (name_sets tr (svc_name tr s))
-  | _, _ => false
+  match first_routed l with
+  | Some (_, s) =>
+    let sets := name_sets tr (svc_name tr s) in
+    match pass_pos sets l with
+    | Some g =>
+      existsb (fun x => negb (gstate_eqb (ne_st x) GRunning) && Nat.ltb (ne_pos x) g &&
+                        match cmd_return tr (ne_cmd x) with Some j => Nat.ltb g j | None => true end) sets
+    | None => false
+    end
+  | None => false
   end.
 
 (** ** The monitor *)
